@@ -218,6 +218,10 @@ def hstep (closing mu returned : Bool) (h : Handler) : HL → Option Handler
                            | _ => .idleRead),
                     completed := h.completed + 1, cresps := h.cresps + 1 }
     else none
+  -- ABSTRACTIONS (over-approximations that skip states without visible events): a failed write of a CONNECT's
+  -- 200 goes straight to `closingConn` (the code logs it and starts the pumps, which end at once on the dead
+  -- connection); a failed MITM handshake goes to `idleRead` (the code returns the error: `handleLoop` leaves
+  -- if it is closeable, else reads the next request from the dead connection and leaves on `readErr`).
   | .writeErr =>
     match h.pc with
     | .writing _ => some { h with pc := .closingConn, aborted := h.aborted + 1 }
